@@ -716,10 +716,10 @@ func doRecover(caller *frame) value {
 			return p.v
 		case runtime.Error:
 			// The interpreter encountered a runtime error.
-			return iface{caller.i.runtimeErrorString, p.Error()}
+			return iface{caller.i.runtimeErrorString, strings.TrimPrefix(p.Error(), "runtime error: ")}
 		case string:
 			// The interpreter explicitly called panic().
-			return iface{caller.i.runtimeErrorString, p}
+			return iface{caller.i.runtimeErrorString, strings.TrimPrefix(p, "runtime error: ")}
 		default:
 			panic(fmt.Sprintf("unexpected panic type %T in target call to recover()", p))
 		}
